@@ -4,6 +4,7 @@ pub uninterp spec fn tr_token(t: TokenReference) -> Token;
 pub uninterp spec fn tok_of(t: TokenReference) -> int;
 pub uninterp spec fn token_type_of(t: Token) -> TokenType;
 pub uninterp spec fn tr_lead(t: TokenReference) -> Seq<Token>;    // the leading trivia of a token reference, in order
+pub uninterp spec fn tr_trail(t: TokenReference) -> Seq<Token>;   // its trailing trivia, in order
 pub uninterp spec fn span_open(c: ContainedSpan) -> TokenReference;
 pub uninterp spec fn span_close(c: ContainedSpan) -> TokenReference;
 
